@@ -5,12 +5,13 @@ go 1.13
 require (
 	github.com/absolute8511/redcon v0.9.3
 	github.com/coreos/pkg v0.0.0-20180108230652-97fdf19511ea
+	github.com/gobwas/glob v0.2.3
 	github.com/youzan/ZanRedisDB v0.0.0
 	github.com/youzan/go-zanredisdb v0.6.3
 	google.golang.org/grpc v1.9.2
 )
 
-replace github.com/youzan/ZanRedisDB => /tmp/sv-C14-20557
+replace github.com/youzan/ZanRedisDB => /repo
 
 replace github.com/youzan/gorocksdb => /verif/build/third_party/gorocksdb
 
